@@ -82,3 +82,15 @@ Theorem C04_build_main_emits_at_most_once :
     build_main ffuel p un main = inl b -> emission_premises_b p main = true -> NoDup (srcs_graph (b_graph b)).
 Proof. exact build_main_emitted_at_most_once. Qed.
 Print Assumptions C04_build_main_emits_at_most_once.
+
+(* Definition before use inside one graph, by construction: when the nodes of scope g are the sub-sequence of a dependency-closed
+   order selected by the ownership test (which is how build_main defines them, with the order of C04_postorder_spec), every
+   dependency of an emitted node that belongs to the same scope is emitted earlier in that graph. *)
+Theorem C04_same_graph_dependencies_first :
+  forall p un args_of own_of fbuild fuel s g prefix vi ai ms ro s' rq fs topo sel,
+    compile p un args_of own_of fbuild fuel s g prefix vi = inl (MGraph ai ms ro, s', rq, fs) ->
+    closed nref (full_adj p) topo -> own_of g = filter sel topo ->
+    forall l1 n l2, ms = l1 ++ n :: l2 -> forall w, In w (deps p (src_of n)) -> sel w = true -> is_arg p w = false ->
+    In w (map src_of l1).
+Proof. exact same_graph_dependencies_first. Qed.
+Print Assumptions C04_same_graph_dependencies_first.
